@@ -11,8 +11,13 @@ def world_stab(rnd):
     fields = [fld("a", 8, False), fld("b", 8, False), fld("c", 4, rnd.random() < 0.5), fld("k", 4, False, rand=False, init=5),
               # fields whose first-reference order in the constraints is not the alphabetical order of their names
               fld("zeta", 6, False), fld("mid", 6, False), fld("alpha", 6, False),
-              {"name": "l", "kind": "list", "w": 4, "signed": False, "rand": True, "init": [0, 0, 0], "cap": 4}]
+              {"name": "l", "kind": "list", "w": 4, "signed": False, "rand": True, "init": [0, 0, 0], "cap": 4},
+              # enum fields no constraint mentions (non-contiguous enumerators: a domain of several parts)
+              {"name": "e", "kind": "enum", "values": [1, 4, 9, 10], "rand": True, "init": 1},
+              {"name": "e2", "kind": "enum", "values": [0, 7], "rand": True, "init": 0}]
     blocks = [blk("c1", [E(B("lt", F("a"), F("b")))]),
+              # fields that share the set of the ORDERED fields a, b without being named in any solve_order
+              blk("c5", [E(B("ne", F("a"), F("zeta"))), E(B("ne", F("b"), F("mid")))]),
               blk("c0", [E(B("lt", F("zeta"), F("mid"))), E(B("lt", F("mid"), F("alpha")))]),
               blk("c2", [{"k": "dist", "e": F("c"), "ws": [{"it": {"k": "v", "e": lit(1)}, "w": lit(2)},
                                                           {"it": {"k": "r", "lo": lit(2), "hi": lit(5)}, "w": lit(3)}]}]),
